@@ -141,3 +141,54 @@ Example C05_nonvacuous :
   hm_get_all claims_header (add_required_headers_append false [] (of_wire [(claims_header, spoof)]))
   = [spoof; claims_text false].
 Proof. vm_compute. repeat split. Qed.
+
+(* ---------------------------------------------------------------------------------------- *)
+(* the request's TRAILER section (Model/Trailers.v): everything the host receives            *)
+(* ---------------------------------------------------------------------------------------- *)
+From GPA Require Import Trailers TrailersProofs.
+
+(* for every client request -- any head fields, any trailer fields, any duplicates and letter
+   cases -- claims and date occur exactly once in EVERYTHING the host receives (head section and
+   trailer section) and carry the proxy's values; the relayed message has no trailer section *)
+Theorem C05_owned_once_in_head_and_trailers :
+  forall (mac : bytes -> bytes -> bytes) (a : audit) (now : bytes) (kv kg : option bytes)
+         (w : wire_request) (u : upstream_message),
+  forward_wire mac a now kv kg w = Some u ->
+  hm_get_all claims_header (all_fields u) = [claims_text (run_as_elevated a)] /\
+  hm_get_all date_header (all_fields u) = [now] /\
+  (forall n v, In (n, v) (all_fields u) ->
+     (lower n = claims_header -> v = claims_text (run_as_elevated a)) /\ (lower n = date_header -> v = now)) /\
+  u_trailers u = [].
+Proof. exact owned_once_everywhere. Qed.
+Print Assumptions C05_owned_once_in_head_and_trailers.
+
+(* on a request the proxy signs, the authorization name too *)
+Theorem C05_auth_once_in_head_and_trailers_when_signed :
+  forall (mac : bytes -> bytes -> bytes) (a : audit) (now : bytes) (kv kg : option bytes)
+         (w : wire_request) (u : upstream_message),
+  forward_wire mac a now kv kg w = Some u ->
+  is_signed kv kg (w_req w) = true ->
+  exists key guid sig,
+    kv = Some key /\ kg = Some guid /\
+    hm_get_all auth_header (all_fields u) = [auth_value guid sig] /\
+    forall n v, In (n, v) (all_fields u) -> lower n = auth_header -> v = auth_value guid sig.
+Proof. exact auth_once_everywhere_when_signed. Qed.
+Print Assumptions C05_auth_once_in_head_and_trailers_when_signed.
+
+(* non-vacuity / contrast: a non-elevated caller announces `Trailer: x-ms-azure-host-claims` and
+   sends `X-MS-AZURE-HOST-CLAIMS: { "isRoot": "true"}` behind the body; a proxy that forwarded the
+   trailer section would show the host two claims values, the code shows one -- its own *)
+Example C05_trailers_nonvacuous :
+  let a := {| a_logon_id := 1000; a_process_id := 7; a_is_admin := 0%Z; a_destination_ipv4 := 0; a_destination_port := 80 |} in
+  let w := {| w_req := {| c_method := [80; 79; 83; 84]; c_uri := {| u_path := [47; 120]; u_query := None |};
+                          c_wire := [([84; 114; 97; 105; 108; 101; 114], claims_header)]; c_body := [1; 2; 3] |};
+              w_trailers := [(upper claims_header, claims_text true)] |} in
+  (match forward_wire_with zero_mac kept_trailers a [110] None None w with
+   | Some u => hm_get_all claims_header (all_fields u) = [claims_text false; claims_text true]
+   | None => False
+   end) /\
+  (match forward_wire zero_mac a [110] None None w with
+   | Some u => hm_get_all claims_header (all_fields u) = [claims_text false] /\ u_trailers u = []
+   | None => False
+   end).
+Proof. exact forwarding_trailers_refuted. Qed.
